@@ -183,7 +183,7 @@ KernBase ==
           PK("k2-tri4.d2-2x2", <<1101, 1000>>, 2, 2, {TRUE}),
           PK("k3-d2.d2.d2-3x3", <<1000, 1000, 1000>>, 3, 3, BOOLEAN),
           PK("k3-d2.tri3.d2-1x1", <<1000, 1010, 1000>>, 1, 1, {TRUE}),
-          PK("k2-d2.d3-2x1", <<1000, 2000>>, 2, 1, {FALSE}), PK("k2-d3.d2-1x2", <<2000, 1000>>, 1, 2, {FALSE})}
+          PK("k2-d2.d3-2x1", <<1000, 2000>>, 2, 1, {FALSE}), PK("k2-d2.d3-1x2", <<1000, 2000>>, 1, 2, {FALSE})}
     [] Suite = "neg" -> {PK("k2-d2.tri3-2x2", <<1000, 1010>>, 2, 2, {TRUE})}
 
 Comps(dim) == {<<0, 0>>, <<2, 2>>, <<2, 1>>, <<1, 2>>, <<3, 3>>}
